@@ -128,6 +128,12 @@ func operandExpr(t *rapid.T, sh *progShape, allowEqu []string, depth int) []rc.T
 		case k == 5:
 			return rc.Toks(rc.ID(rapid.SampledFrom([]string{"CORESIZE", "MAXLENGTH", "MAXPROCESSES", "MINDISTANCE"}).Draw(t, "const")))
 		case k == 6:
+			switch rapid.IntRange(0, 4).Draw(t, "signkind") {
+			case 0: // an explicit plus
+				return rc.Toks(rc.OP("+"), rc.N(lit(t, "pos")))
+			case 1: // two signs that cancel
+				return rc.Toks(rc.OP("-"), rc.OP("-"), rc.N(lit(t, "negneg")))
+			}
 			return rc.Toks(rc.OP("-"), rc.N(lit(t, "neg")))
 		default:
 			return rc.Toks(rc.N(lit(t, "lit")))
